@@ -83,6 +83,10 @@ type BlockPipeline struct {
 	wg              sync.WaitGroup
 	mu              sync.Mutex   // protects Start/Stop
 	submitMu        sync.RWMutex // protects Submit against concurrent Stop
+	// submitSem serialises sequence allocation with the enqueue, so that a
+	// submission which gives up while the pipeline is full does not consume
+	// a sequence number
+	submitSem chan struct{}
 }
 
 // NewBlockPipeline creates a new BlockPipeline using functional options.
@@ -133,6 +137,7 @@ func (p *BlockPipeline) Start(ctx context.Context) error {
 	p.decodedChan = make(chan *BlockItem, bufSize)
 	p.resultsChan = make(chan *BlockItem, bufSize)
 	p.errorsChan = make(chan error, bufSize)
+	p.submitSem = make(chan struct{}, 1)
 
 	// Create decode stage
 	p.decodeStage = NewDecodeStage(p.config.SkipBodyHashValidation)
@@ -225,18 +230,29 @@ func (p *BlockPipeline) Submit(ctx context.Context, blockType uint, rawCbor []by
 		return ErrPipelineStopped
 	}
 
-	// Allocate sequence number only once, then send.
-	// We use a single blocking select to avoid sequence gaps that would occur
-	// if we allocated in a non-blocking attempt that failed.
-	item := NewBlockItem(blockType, rawCbor, tip, p.sequenceCounter.Add(1)-1)
+	// Take the submit token: only one submission at a time may be between
+	// "sequence number chosen" and "item enqueued". A gap in the sequence
+	// would stall the apply stage forever, so the number is only consumed
+	// once the item is in the channel.
+	select {
+	case p.submitSem <- struct{}{}:
+	case <-ctx.Done():
+		return ctx.Err()
+	case <-p.ctx.Done():
+		return ErrPipelineStopped
+	}
+	defer func() { <-p.submitSem }()
+
+	item := NewBlockItem(blockType, rawCbor, tip, p.sequenceCounter.Load())
 
 	select {
 	case p.submitChan <- item:
+		p.sequenceCounter.Add(1)
 		p.metrics.RecordSubmit()
 		return nil
 	case <-ctx.Done():
-		// Context cancelled while waiting - sequence gap is acceptable
-		// because this typically means shutdown.
+		// Context cancelled while waiting: the sequence number was not
+		// consumed, so later submissions are unaffected.
 		return ctx.Err()
 	case <-p.ctx.Done():
 		return ErrPipelineStopped
